@@ -510,12 +510,12 @@ fn kind(e: &VaporettoError) -> &'static str {
     }
 }
 
-/// hands out at most 5 bytes per call (readers must cope with short reads)
-struct ShortReads<'a>(&'a [u8]);
+/// hands out at most `1` bytes per call (readers must cope with short reads)
+struct ShortReads<'a>(&'a [u8], usize);
 
 impl std::io::Read for ShortReads<'_> {
     fn read(&mut self, buf: &mut [u8]) -> std::io::Result<usize> {
-        let n = buf.len().min(self.0.len()).min(5);
+        let n = buf.len().min(self.0.len()).min(self.1);
         buf[..n].copy_from_slice(&self.0[..n]);
         self.0 = &self.0[n..];
         Ok(n)
@@ -541,7 +541,22 @@ fn convert(bytes: &[u8]) -> String {
 /// the same file through buffered readers whose refills fall at every kind of offset: a 16-byte and a 7-byte buffer over
 /// short reads (what `BufReader<File>` does to a real, large model every 8 KiB)
 fn convert_chunked(bytes: &[u8]) -> Vec<String> {
-    [16usize, 7].iter().map(|&cap| convert_with(std::io::BufReader::with_capacity(cap, ShortReads(bytes)))).collect()
+    [16usize, 7].iter().map(|&cap| convert_with(std::io::BufReader::with_capacity(cap, ShortReads(bytes, 5)))).collect()
+}
+
+/// a whole file through every combination of small buffer capacities and short reads: multi-byte fields (weights, counts,
+/// floats) get split at one refill, at two consecutive refills, after a carried byte, ...
+fn convert_chunked_matrix(bytes: &[u8]) -> Vec<(String, String)> {
+    let mut v = vec![];
+    for cap in [1usize, 2, 3, 4, 5, 6, 7, 8, 9, 11, 13, 16, 17, 31, 32, 33, 40, 64] {
+        for per_read in [1usize, 2, 3, 5, 8, 64] {
+            if per_read > cap && per_read != 64 {
+                continue;
+            }
+            v.push((format!("BufReader capacity {cap}, at most {per_read} bytes per read"), convert_with(std::io::BufReader::with_capacity(cap, ShortReads(bytes, per_read)))));
+        }
+    }
+    v
 }
 
 pub fn run(toks: &[&str], fails: &mut Vec<(String, String)>) -> String {
@@ -563,6 +578,12 @@ pub fn run(toks: &[&str], fails: &mut Vec<(String, String)>) -> String {
                     }
                 }
                 if n == full.len() {
+                    for (what, alt) in convert_chunked_matrix(&full) {
+                        if alt != r {
+                            fails.push(("C17".into(), format!("the file read through a small buffered reader ({what}) converts to {}, read from a slice to {}", &alt[..alt.len().min(60)], &r[..r.len().min(60)])));
+                            break;
+                        }
+                    }
                     match k.expected() {
                         Ok(exp) => {
                             let want = format!("ok:{}", hex(&exp.to_bytes()));
@@ -592,6 +613,14 @@ pub fn run(toks: &[&str], fails: &mut Vec<(String, String)>) -> String {
                 for (k, alt) in convert_chunked(&full[..n]).into_iter().enumerate() {
                     if alt != r && !(alt.starts_with("err:") && r.starts_with("err:")) {
                         fails.push(("C17".into(), format!("the file read through a small buffered reader (variant {k}) converts to {}, read from a slice to {}", &alt[..alt.len().min(60)], &r[..r.len().min(60)])));
+                    }
+                }
+            }
+            if c17 && n == full.len() && r.starts_with("ok:") {
+                for (what, alt) in convert_chunked_matrix(&full) {
+                    if alt != r {
+                        fails.push(("C17".into(), format!("the file read through a small buffered reader ({what}) converts to {}, read from a slice to {}", &alt[..alt.len().min(60)], &r[..r.len().min(60)])));
+                        break;
                     }
                 }
             }
